@@ -42,6 +42,13 @@ CHECKS = {
         note='Objects are located positionally from the abstract model the document was written from. The key-holder clause is read through '
              'get_references_for_sql (the anchored mechanism). One recorded finding (dotted enum names).',
         design='DESIGN.md §3 C05'),
+    'C10': dict(
+        level='model_checking', technique='explicit-state exploration of edit histories on live objects (depth 2 all, depth 3 over the cache-sensitive edits), lock-step abstract model, differential oracle against a fresh build, element by element',
+        text='Every edit history up to the bound over a 65-edit alphabet (renames, type changes, flags, defaults, notes, aliases, reference kind/inline/name/actions, add column/index/item, delete index) '
+             'is executed on an API-built and on a parsed database, with renderings evaluated between the edits (so caches are warm) and without; after the history every rendering of the database and '
+             'of each element must equal that of a database freshly built from the final content.',
+        note='The abstract model is edited by mirror functions; histories whose final content cannot be built (two tables with one full name) are skipped and counted. Histories are never merged by content.',
+        design='DESIGN.md §3 C10'),
     'C18': dict(
         level='exploration', technique='exhaustive enumeration of all labelled DAGs (n<=4/5) x edge kinds, SQL read back by independent DDL reader',
         text='Every labelled DAG of inline references on up to 4 (quick) / 5 (thorough) tables with every assignment of kinds >,<,- is built, '
